@@ -54,6 +54,16 @@ CLAIMED = {
              'all-cycles partition, and that the container flag agrees with the same criteria. Correspondence over the same '
              'exhaustive phase space x 4 phase_edge values x random/block masks, plus the criteria oracle on the implementation.',
         note=NOTE),
+    'C14': dict(
+        technique='Coq proof (parametric in the reducing function; exact rational linear interpolation; bin membership via digitize) + differential correspondence',
+        text='Theorems (Prop_C14.v) prove for ANY function f of any result type and ANY labelling that the per-cycle statistic is f applied '
+             'to precisely the samples carrying the label and that its projection is constant on each cycle and missing elsewhere; that '
+             'linear interpolation with extrapolation reproduces any quantity linear in phase exactly at every grid point for every cycle of '
+             '>= 2 samples and passes through every sample; and that every phase bin holds the mean of exactly the samples in its '
+             'half-open interval (missing only when empty). Correspondence: all label-complete label vectors up to length 6/8 x 6 '
+             'functions (exact), integer bin_by_phase (exact), phase_align vs exact rationals (1e-9). Interpolation error for non-linear '
+             'quantities is not a theorem (oracle only on linear ones).',
+        note=NOTE + ' scipy interp1d(kind=linear, extrapolate) is modelled by its documented formula and validated by the correspondence.'),
     'C16': dict(
         technique='Coq proof over a Gallina model of the 12 index maps and 6 projections + exhaustive differential correspondence (all selection vectors up to length 8/12)',
         text='Theorems (Prop_C16.v) prove for every cycle vector and selection that subset/chain vectors are the ordered numbering / '
